@@ -803,6 +803,20 @@ def c12(ctx):
                     aux += 1
             lines += ["finish 0", "new %d D %s" % (aux, G.keystr(key)), "hash64 %d %s" % (aux, hexs(sofar))]
             hists.append(History(hid, lines, {"backend": b}))
+        # large single buffers through every entry point (a write must consume ALL of it, whatever its size)
+        hid = len(hists)
+        sizes = [8191, 8192, 8193, 65535, 65536, 65537, 100000] + ([1 << 20, (1 << 20) + 1] if ctx.tier == "thorough" else [])
+        for n in sizes:
+            for k, op in enumerate(("write", "writeall", "iocopy", "hwrite")):
+                b = (X86_BACKENDS + ("B",))[(k + n) % 5]
+                key = G.rand_key(rng)
+                d = rng.bytes(n, 0)
+                pre = rng.bytes(rng.below(40), 1)
+                lines = [ctor(b, 0, key), "append 0 %s" % hexs(pre), "%s 0 %s" % (op, hexs(d)), "finish 0",
+                         "new 1 P %s" % G.keystr(key), "hash64 1 %s" % hexs(pre + d)]
+                hists.append(History(hid, lines, {"backend": b, "big": n}))
+                ctx.count("big_buffer=%d" % n)
+                hid += 1
         return hists
 
     def oracle(h, il):
@@ -1309,6 +1323,32 @@ def c18(ctx):
                       None, no_input=True, tag="facts", extra_lines=off)
 
 
+
+# C03 / C04  NEON / Wasm backends (Miri)
+def c03(ctx):
+    ctx.nontrivial_rule = ("the REAL src/aarch64.rs executed under Miri (target aarch64-unknown-linux-gnu, hook: USHL shim) against the extracted "
+                           "model: one history = NeonHash, PortableHash and HighwayHasher (tag 3) fed the same bytes with a cut, checkpoints at the "
+                           "cut, cross restores NEON->portable, portable->NEON, NEON->dispatcher, digests at all widths; every remainder size with "
+                           "carry-boundary keys; arbitrary blobs; Default; oracle: NEON = portable (same process), checkpoints identical; "
+                           "non-trivial = distinct script with non-empty data")
+    ok = proof_gate(ctx, "theories/Properties/C03.v", ["C03_neon_equals_portable", "C03_checkpoints_interchangeable"])
+    ensure_model(ctx)
+    from . import miri
+    miri.neon(ctx)
+    proof_verdict(ctx, ok)
+
+
+def c04(ctx):
+    ctx.nontrivial_rule = ("the REAL src/wasm.rs executed under Miri (target wasm32-unknown-unknown +simd128, no_std allocator-free harness) against "
+                           "the extracted model: same history shapes as C03 with WasmHash; oracle: Wasm = portable (same process), checkpoints "
+                           "identical; non-trivial = distinct script with non-empty data")
+    ok = proof_gate(ctx, "theories/Properties/C04.v", ["C04_wasm_equals_portable", "C04_checkpoints_interchangeable"])
+    ensure_model(ctx)
+    from . import miri
+    miri.wasm(ctx)
+    proof_verdict(ctx, ok)
+
+
 def replay(pid, path):
     """Re-run a replay script on the implementation (dev and release) and on the model; print both."""
     lines = [l.rstrip("\n") for l in open(path)]
@@ -1332,5 +1372,5 @@ def replay(pid, path):
     return 0
 
 
-PROPS = {"C01": c01, "C02": c02, "C05": c05, "C06": c06, "C07": c07, "C08": c08, "C09": c09,
+PROPS = {"C01": c01, "C02": c02, "C03": c03, "C04": c04, "C05": c05, "C06": c06, "C07": c07, "C08": c08, "C09": c09,
          "C10": c10, "C11": c11, "C12": c12, "C13": c13, "C14": c14, "C15": c15, "C16": c16, "C17": c17, "C18": c18}
